@@ -59,6 +59,9 @@ let konst a b =
 let pair a b =
   (a, b)
 
+let both a b =
+  (Some a, Some b)
+
 let gv = 40 + 2
 
 let zzUseImports () =
@@ -79,6 +82,7 @@ func PreludeProgram() *Program {
 		FuncDef{Name: "inc", Params: []Param{{Name: "a"}}, Body: B(BinOp{"+", Var{"a"}, IntLit{1}})},
 		FuncDef{Name: "konst", Params: []Param{{Name: "a"}, {Name: "b"}}, Body: B(Var{"a"})},
 		FuncDef{Name: "pair", Params: []Param{{Name: "a"}, {Name: "b"}}, Body: B(Tuple{[]Expr{Var{"a"}, Var{"b"}}})},
+		FuncDef{Name: "both", Params: []Param{{Name: "a"}, {Name: "b"}}, Body: B(Tuple{[]Expr{Ctor{Case: "Some", Arg: Var{"a"}}, Ctor{Case: "Some", Arg: Var{"b"}}}})},
 		VarDef{Name: "gv", Rhs: BinOp{"+", IntLit{40}, IntLit{2}}},
 	}}
 }
